@@ -377,8 +377,9 @@ def run_corpus(chk, tier):
             if seen_per_call[call] > (4 if tier == "quick" else 20):
                 continue
             seen_per_struct[s] = seen_per_struct.get(s, 0) + 1
-            # files about pinned not-Ok buffers: one ordinary round trip per struct is enough (quick)
-            cap_quick = 1 if annotations.get(origin) else (16 if corpus_file else 8)
+            # files about pinned not-Ok buffers: their ordinary round trips run in the thorough tier only
+            # (structs with [requires] / Bcd on Ok buffers are covered by the generated modules)
+            cap_quick = 0 if annotations.get(origin) else (16 if corpus_file else 8)
             if seen_per_struct[s] > (cap_quick if tier == "quick" else 60):
                 continue
             for o in opts:
